@@ -179,6 +179,34 @@ def runHistory (cache : Option Table) : List (List (Bytes × FVal)) → Option T
   | [] => cache
   | m :: rest => runHistory (setupStep cache m).2 rest
 
+/-! ## which function a call reaches: the two index tables -/
+
+def bytesLe : Bytes → Bytes → Bool
+  | [], _ => true
+  | _ :: _, [] => false
+  | a :: as, b :: bs => a < b || (a == b && bytesLe as bs)
+
+/-- `sort.Strings` of the keys of the Funcs map: the index table both the resolver and the interpreter build -/
+def insertBy (a : Bytes) : List Bytes → List Bytes
+  | [] => [a]
+  | b :: r => if bytesLe a b then a :: b :: r else b :: insertBy a r
+
+def indexTable (names : List Bytes) : List Bytes := names.foldr insertBy []
+
+inductive Callee | awk (n : Bytes) | native (n : Bytes) | undefined
+  deriving DecidableEq, Repr
+
+/-- resolver: an AWK-defined function takes precedence; otherwise the index is the position in the sorted key list of
+`ParserConfig.Funcs` (every key, overridden or not). interpreter: `p.nativeFuncs[index]` over the sorted key list of `Config.Funcs`. -/
+def dispatch (parseFuncs runFuncs awkDefined : List Bytes) (n : Bytes) : Callee :=
+  if n ∈ awkDefined then .awk n
+  else if n ∈ parseFuncs then
+    match (indexTable runFuncs)[(indexTable parseFuncs).idxOf n]? with
+    | some m => .native m
+    | none => .undefined
+  else .undefined
+
+
 /-! ## numbers: IEEE-754 bit patterns as `Nat` -/
 
 def bitLen : Nat → Nat := Nat.log2 ∘ (· * 2)   -- number of significant bits; bitLen 0 = 0
